@@ -246,6 +246,8 @@ class Interp:
         r = self.atom(e)
         if r is not None:
             return r
+        if isinstance(e, ast.Call) and isinstance(e.func, ast.Name) and e.func.id == "bool" and len(e.args) == 1 and not e.keywords:
+            return self._tv(e.args[0])   # bool(x) has the truth value of x
         if isinstance(e, ast.Name) and is_mutable_display(getattr(self, "_env", {}).get(e.id)):
             # truthiness of a locally built container: known when it was filled or never touched
             base = self._env[e.id]
